@@ -492,6 +492,26 @@ static char *field_dup (const char *tok)
 }
 
 /* BUILD <ctor:g|s> <arrays:i|f> T=.. F=.. S=.. path.. iface.. member.. errname.. dest.. sender.. rserial=.. sig=.. cinst.. body=[..] */
+/* GETDEL: read every header field back (which fills the header's field cache), then remove one field by setting it
+ * to NULL, then read two fields again.  Returns 0 if the removal reports failure. */
+static int build_getdel (DBusMessage *m, const char *getdel)
+{
+  volatile const char *sink;
+  sink = dbus_message_get_path (m); sink = dbus_message_get_interface (m); sink = dbus_message_get_member (m);
+  sink = dbus_message_get_error_name (m); sink = dbus_message_get_destination (m); sink = dbus_message_get_sender (m);
+  sink = dbus_message_get_container_instance (m); sink = dbus_message_get_signature (m); (void) sink;
+  (void) dbus_message_get_reply_serial (m);
+  if (!strcmp (getdel, "path")) { if (!dbus_message_set_path (m, NULL)) return 0; }
+  else if (!strcmp (getdel, "iface")) { if (!dbus_message_set_interface (m, NULL)) return 0; }
+  else if (!strcmp (getdel, "member")) { if (!dbus_message_set_member (m, NULL)) return 0; }
+  else if (!strcmp (getdel, "errname")) { if (!dbus_message_set_error_name (m, NULL)) return 0; }
+  else if (!strcmp (getdel, "dest")) { if (!dbus_message_set_destination (m, NULL)) return 0; }
+  else if (!strcmp (getdel, "sender")) { if (!dbus_message_set_sender (m, NULL)) return 0; }
+  else if (!strcmp (getdel, "cinst")) { if (!dbus_message_set_container_instance (m, NULL)) return 0; }
+  sink = dbus_message_get_path (m); sink = dbus_message_get_member (m); (void) sink;
+  return 1;
+}
+
 static void cmd_build (int argc, char **argv)
 {
   int type = 0, flags = 0, i; unsigned serial = 0, rserial = 0;
@@ -557,35 +577,26 @@ static void cmd_build (int argc, char **argv)
           else if (q[1] == 'i') dbus_message_set_allow_interactive_authorization (m, on);
         }
     }
-  if (getdel)
-    {
-      /* the program reads every header field back (which fills the header's field cache), then removes one field by
-       * setting it to NULL, then goes on building: GETDEL=<field> with field in path iface member errname dest sender cinst */
-      volatile const char *sink;
-      sink = dbus_message_get_path (m); sink = dbus_message_get_interface (m); sink = dbus_message_get_member (m);
-      sink = dbus_message_get_error_name (m); sink = dbus_message_get_destination (m); sink = dbus_message_get_sender (m);
-      sink = dbus_message_get_container_instance (m); sink = dbus_message_get_signature (m); (void) sink;
-      (void) dbus_message_get_reply_serial (m);
-      if (!strcmp (getdel, "path")) { if (!dbus_message_set_path (m, NULL)) goto fail; }
-      else if (!strcmp (getdel, "iface")) { if (!dbus_message_set_interface (m, NULL)) goto fail; }
-      else if (!strcmp (getdel, "member")) { if (!dbus_message_set_member (m, NULL)) goto fail; }
-      else if (!strcmp (getdel, "errname")) { if (!dbus_message_set_error_name (m, NULL)) goto fail; }
-      else if (!strcmp (getdel, "dest")) { if (!dbus_message_set_destination (m, NULL)) goto fail; }
-      else if (!strcmp (getdel, "sender")) { if (!dbus_message_set_sender (m, NULL)) goto fail; }
-      else if (!strcmp (getdel, "cinst")) { if (!dbus_message_set_container_instance (m, NULL)) goto fail; }
-      sink = dbus_message_get_path (m); sink = dbus_message_get_member (m); (void) sink;
-    }
   if (serial) dbus_message_set_serial (m, serial);
   if (body)
     {
-      Parser ps = { body, fixed, 0 }; DBusMessageIter it;
+      Parser ps = { body, fixed, 0 }; DBusMessageIter it; int nvals = 0;
       dbus_message_iter_init_append (m, &it);
       while (*ps.p && *ps.p != ']')
         {
           if (!parse_value (&ps, &it)) { ob_puts (&out, "ERR body-parse-or-append"); dbus_message_unref (m); goto done; }
           if (*ps.p == ',') ps.p++;
+          /* with a body, the field is removed between the first and the second argument (a SIGNATURE field exists by
+           * then and sits behind the removed field); a fresh append iterator is used for the rest, as an application would */
+          if (getdel && ++nvals == 1)
+            {
+              if (!build_getdel (m, getdel)) goto fail;
+              getdel = NULL;
+              dbus_message_iter_init_append (m, &it);
+            }
         }
     }
+  if (getdel && !build_getdel (m, getdel)) goto fail;
   ob_puts (&out, "bytes=");
   marshal_hex (m, &out);
   copy = dbus_message_copy (m);
@@ -596,6 +607,9 @@ static void cmd_build (int argc, char **argv)
       marshal_hex (copy, &out);
       dbus_message_unref (copy);
     }
+  /* what the accessors say about the finished message (must agree with the bytes) */
+  ob_puts (&out, " acc=");
+  canon_msg (m, &out);
   dbus_message_unref (m);
   goto done;
 fail:
